@@ -337,8 +337,10 @@ impl Engine for C18 {
                 continue;
             }
             // programs whose document the compiler cannot produce are outside the property
-            if emitted(&print(p).texts).is_err() {
-                continue;
+            match emitted(&print(p).texts) {
+                // a document with an orphan component (D16) is not equal to itself
+                Ok(d) if doc::compare(&d, &d).is_ok() => {}
+                _ => continue,
             }
             sink.visit(idx, || c02::program_json(p, &print(p).texts), |s| judge(p, Some(s)));
         }
